@@ -245,6 +245,21 @@ func runC11(r *mc.Run) {
 				w.QeBody = world.SignedBody("enclaveIdentity", w.QeRaw, w.PKI.TcbKey)
 				w.BuildGetter()
 			}
+			// the two documents need not come from one signing certificate: after a renewal of Intel's TCB signing
+			// certificate one response still carries the old certificate, the other the new one (both under the root)
+			if cs := c.Choose("collateral-signers", 3); cs != 0 {
+				k2 := world.NewKey("c11-tcb-signer-2")
+				cert2 := world.MakeCert(world.CertSpec{CN: world.CNTcb, Key: k2, Serial: big.NewInt(0x5eed0002)}, w.PKI.Root, w.PKI.RootKey)
+				hdr2 := world.IssuerChainHeader(cert2, w.PKI.Root)
+				if cs == 1 {
+					w.QeBody = world.SignedBody("enclaveIdentity", w.QeRaw, k2)
+					w.QeHdr = map[string][]string{world.HdrQeIdentity: {hdr2}}
+				} else {
+					w.TcbBody = world.SignedBody("tcbInfo", w.TcbRaw, k2)
+					w.TcbHdr = map[string][]string{world.HdrTcbInfo: {hdr2}}
+				}
+				w.BuildGetter()
+			}
 			switch tm {
 			case 1: // just after the latest notBefore / issue date
 				w.Now = world.TimeSetAt(world.T0.AddDate(0, 0, -5).Add(1))
